@@ -629,6 +629,14 @@ func c07Check(c *rt.Ctx, o *rt.Obs, zctx *zed.Context, p *prog.Program, vals []z
 			return
 		}
 	}
+	if len(rewrites) == 0 {
+		// The optimizer left the plan unchanged, so whatever differs between the
+		// two runs is run-to-run nondeterminism of the runtime (e.g. `… | head 1 |
+		// sort | uniq -c` after `over` sometimes never terminates): not a statement
+		// about the optimizer.  Counted, not alarmed.
+		o.Count("identical_plans_diverged", 1)
+		return
+	}
 	kind := "output-differs"
 	switch {
 	case b.hung:
